@@ -378,10 +378,46 @@ static void run_agree(const Form* forms, uint32_t nforms) {
     V_WITNESS("both-accept");
   }
 }
+
+// C16: output is independent of whether a logger is attached.
+static char dummy_logger_storage[8];
+template<bool X64>
+static void run_logindep(const Form* forms, uint32_t nforms) {
+  const Form& f0 = forms[0];
+  Operand_ o[4]; Given g;
+  build_operands<X64>(forms, nforms, 0, o, g);
+  Operand_ ext[3]; ext[0] = o[3]; ext[1].reset(); ext[2].reset();
+  uint8_t b1[16]; Error e1, e2; size_t n1, n2;
+  {
+    x86::Assembler* a = venv::make_asm(X64, false);
+    if (g.k) a->_extra_reg.init(x86::k(g.k));
+    if (g.z) a->_inst_options |= InstOptions::kX86_ZMask;
+    e1 = a->x86::Assembler::_emit(f0.inst, o[0], o[1], o[2], ext); n1 = venv::emitted();
+    memcpy(b1, venv::buf, 16);
+    V_ASSERT(venv::n_logged == 0, "nothing is logged without a logger");
+  }
+  {
+    x86::Assembler* a = venv::make_asm(X64, false);
+    a->_logger = reinterpret_cast<Logger*>(dummy_logger_storage);   // never dereferenced: the logging call is a stub
+    a->_forced_inst_options |= InstOptions::kReserved;              // as BaseEmitter::on_settings_updated() sets it when a logger is present
+    if (g.k) a->_extra_reg.init(x86::k(g.k));
+    if (g.z) a->_inst_options |= InstOptions::kX86_ZMask;
+    e2 = a->x86::Assembler::_emit(f0.inst, o[0], o[1], o[2], ext); n2 = venv::emitted();
+    V_ASSERT(uint32_t(a->_inst_options) == 0 && !a->_extra_reg.is_reg() && a->_inline_comment == nullptr, "one-shot state cleared with a logger attached");
+  }
+  V_ASSERT(e1 == e2 && n1 == n2, "a logger changes neither the verdict nor the length");
+  bool same = true;
+  for (uint32_t i = 0; i < 15; i++) if (i < n1) same &= b1[i] == venv::buf[i];
+  V_ASSERT(same, "a logger does not change the bytes");
+  if (e1 == Error::kOk) { V_ASSERT(venv::n_logged == 1, "an accepted instruction is logged exactly once"); V_WITNESS("logged"); }
+  verif_observe(uint32_t(e1)); verif_observe(n1);
+}
 }  // namespace vf
 
 // C01 compiles the generated harnesses as encoding checks, C13 (VF_AGREE) as validation on/off agreement checks.
-#ifdef VF_AGREE
+#if defined(VF_LOGINDEP)
+#define VF_RUN(X64, TAB, CNT) vf::run_logindep<X64>(TAB, CNT)
+#elif defined(VF_AGREE)
 #define VF_RUN(X64, TAB, CNT) vf::run_agree<X64>(TAB, CNT)
 #else
 #define VF_RUN(X64, TAB, CNT) vf::run_forms<X64>(TAB, CNT)
